@@ -711,6 +711,175 @@ def r01_7(ctx):
                f"no constant remaining-length check dominates the {width}-byte vector load of simd_str2int")
 
 
+def r01_9(ctx):
+    """`index() - k` (the position of a byte already consumed) is computed only where k bytes are known
+    to have been consumed: the function was handed the consumed byte (a u8 parameter), or the
+    subtraction sits on the Some-edge of the consuming call, or an eat(n >= k) dominates it."""
+    prog = ctx.prog()
+    from ..analysis import affine_of
+    n = 0
+    seen = collections.Counter()
+    for f in prog.fns.values():
+        if f.crate != "sonic_rs" or f.self_adt != PARSER:
+            continue
+        for b, i, s in f.assigns():
+            rv = s["rv"]
+            if not (rv["k"] == "binop" and rv["op"] in ("SubWithOverflow", "Sub")):
+                continue
+            la = op_local(rv["a"])
+            k = op_int(rv["b"])
+            if la is None:
+                continue
+            sl, leaves = backward_slice(f, [la])
+            calls = [lf[2] for lf in leaves if lf[0] == "call"]
+            if not calls or not all(callee_is(c, "Reader::index") for c in calls):
+                continue
+            n += 1
+            seen[short(f.id)] += 1
+            key = f"{short(f.id)}#{seen[short(f.id)]}"
+            why = None
+            if any(t == "u8" for t in f.inputs[1:]):
+                why = "the function is handed the byte it has consumed (u8 parameter)"
+            if why is None:
+                # Some-edge of a consuming call
+                for cb, ct in f.calls():
+                    if callee_is(ct, "skip_space", "Reader::next") and f.dominates(cb, b):
+                        re_ = result_edges(f, ct["dest"][0])
+                        sws = discr_switches_on(f, ct["dest"][0])
+                        for sb, st in sws:
+                            edges = dict(switch_edges(f, sb))
+                            some_t = edges.get(1)
+                            none_t = edges.get(0, edges.get(None))
+                            if some_t is not None and b in f.reachable_from(some_t) and b not in f.reachable_from(none_t, avoid={some_t}):
+                                why = f"on the Some edge of {ct['callee'].rsplit('::', 1)[-1]}() (a byte was consumed)"
+            if why is None:
+                for cb, ct in f.calls():
+                    if callee_is(ct, "Reader::eat") and f.dominates(cb, b) and len(ct["args"]) > 1:
+                        af = affine_of(f, ct["args"][1])
+                        c = op_int(ct["args"][1])
+                        if (c is not None and k is not None and c >= k) or (af is not None and af[0] >= 0 and k is not None and af[1] >= k):
+                            why = "dominated by eat(n) with n >= the subtracted constant"
+            if why is None and k is not None:
+                # guarded by a comparison of the index with a constant (index > k-1 / index >= k)
+                from ..analysis import bool_switch_edges
+                for bb, ii, ss in f.assigns():
+                    r2 = ss["rv"]
+                    if r2["k"] == "binop" and r2["op"] in ("Gt", "Ge") and op_int(r2["b"]) is not None and f.dominates(bb, b):
+                        l1 = op_local(r2["a"])
+                        if l1 is None:
+                            continue
+                        lv = backward_slice(f, [l1])[1]
+                        if not any(lf[0] == "call" and callee_is(lf[2], "Reader::index") for lf in lv):
+                            continue
+                        bound = op_int(r2["b"]) + (1 if r2["op"] == "Gt" else 0)
+                        e = bool_switch_edges(f, ss["lhs"][0])
+                        if e and bound >= k and b in f.reachable_from(e[0]) and b not in f.reachable_from(e[1], avoid={e[0]}):
+                            why = f"guarded by index() >= {bound}"
+            ctx.ob("R01.9", key, why is not None, f.loc(s["ln"]),
+                   f"index() - {k}: {why}" if why else f"index() - {k} is computed although no byte may have been consumed (empty input): arithmetic overflow panic in builds with overflow checks")
+    ctx.floor("R01.9", "reader-index subtractions in the parser", n, 8)
+
+
+def r01_10(ctx):
+    """a count of outstanding work handed down by `&mut usize` is decremented by a run-time amount only
+    under a guard (the slot group is still empty / a comparison with the amount) or with a saturating
+    / checked subtraction: a document that repeats a key must not be counted twice"""
+    prog = ctx.prog()
+    n = 0
+    for f in prog.fns.values():
+        if f.crate != "sonic_rs" or f.self_adt != PARSER:
+            continue
+        counters = [i for i in range(1, f.argc + 1) if f.locals[i]["ty"] == "&mut usize"]
+        if not counters:
+            continue
+        for b, i, s in f.assigns():
+            rv = s["rv"]
+            if not (rv["k"] == "binop" and rv["op"] in ("SubWithOverflow", "Sub") and op_int(rv["b"]) is None):
+                continue
+            pa = op_place(rv["a"])
+            if pa is None:
+                continue
+            root = pa[0] if pa[1] else None
+            la = op_local(rv["a"])
+            is_counter = (root in counters and pa[1] == ["*"])
+            if not is_counter and la is not None:
+                sc = f.src(la)
+                is_counter = sc[0] == "place" and sc[1][0] in counters and sc[1][1] == ["*"]
+            if not is_counter:
+                continue
+            n += 1
+            guard = None
+            for cb, ct in f.calls():
+                if callee_is(ct, "is_none", "is_some") and f.dominates(cb, b):
+                    from ..analysis import bool_switch_edges
+                    e = bool_switch_edges(f, ct["dest"][0])
+                    if e:
+                        inside = e[0] if callee_is(ct, "is_none") else e[1]
+                        other = e[1] if callee_is(ct, "is_none") else e[0]
+                        if b in f.reachable_from(inside) and b not in f.reachable_from(other, avoid={inside}):
+                            guard = "the slot group is still empty (first member wins)"
+            for bb, ii, ss in f.assigns():
+                r2 = ss["rv"]
+                if r2["k"] == "binop" and r2["op"] in ("Ge", "Gt", "Le", "Lt") and f.dominates(bb, b):
+                    l1, l2 = op_local(r2["a"]), op_local(r2["b"])
+                    if l1 is not None and l2 is not None:
+                        s1 = backward_slice(f, [l1])[1]
+                        s2 = backward_slice(f, [l2])[1]
+                        if any(lf[0] == "place" and lf[1][0] in counters for lf in s1 + s2):
+                            guard = guard or "a comparison of the counter with the amount"
+            ctx.ob("R01.10", f"{short(f.id)}:counter-decrement", guard is not None, f.loc(s["ln"]),
+                   f"the outstanding-work counter is decremented by a run-time amount under a guard: {guard}" if guard else
+                   "the outstanding-work counter is decremented by a run-time amount without a guard: a document that repeats a key is counted twice and the subtraction overflows (panic)")
+    ctx.floor("R01.10", "run-time decrements of a `&mut usize` work counter", n, 1)
+
+
+def r01_11(ctx):
+    """an offset measured over one text is applied to a reader over the same text: when the in-place
+    parser is given a repaired (lossy) copy, the count it returns must be mapped back before eat()"""
+    prog = ctx.prog()
+    f = prog.find("Deserializer::deserialize_value")
+    pw = [(b, t) for b, t in f.calls() if callee_is(t, "parse_with_padding")]
+    ctx.floor("R01.11", "parse_with_padding calls in deserialize_value", len(pw), 1)
+    eats = [(b, t) for b, t in f.calls() if callee_is(t, "Reader::eat")]
+    k = 0
+    for b, t in pw:
+        k += 1
+        al = op_local(t["args"][1])
+        sl, leaves = backward_slice(f, [al]) if al is not None else (set(), [])
+        transformed = [lf[2]["callee"].rsplit("::", 1)[-1] for lf in leaves if lf[0] == "call" and callee_is(lf[2], "from_utf8_lossy", "to_vec", "to_owned", "replace", "to_string")]
+        if not transformed:
+            ctx.ob("R01.11", f"deserialize_value:parse#{k}", True, f.loc(t["ln"]), "the in-place parser is given the reader's own text: its end offset applies to the reader as is")
+            continue
+        # the count produced by this call must reach eat() only through a mapping that also sees the original text
+        res = t["dest"][0]
+        ok = False
+        why = "the end offset measured over the repaired text is applied to the reader over the original text"
+        for eb, et in eats:
+            l = op_local(et["args"][1])
+            if l is None:
+                continue
+            esl, eleaves = backward_slice(f, [l])
+            for lf in eleaves:
+                if lf[0] != "call" or lf[2] is t:
+                    continue
+                nm = lf[2]["callee"].rsplit("::", 1)[-1]
+                if nm in ("branch", "from_residual", "from", "into", "unwrap", "expect"):
+                    continue  # plumbing of `?`, not a mapping
+                argl = [op_local(a) for a in lf[2]["args"]]
+                takes_count = any(a is not None and res in (backward_slice(f, [a], through_calls=True)[0] | {a}) for a in argl)
+                takes_text = False
+                for a in argl:
+                    if a is None:
+                        continue
+                    dsl, dleaves = backward_slice(f, [a], through_calls=False)
+                    if any(x[0] == "call" and callee_is(x[2], "as_u8_slice") for x in dleaves) and res not in dsl:
+                        takes_text = True
+                if takes_count and takes_text:
+                    ok = True
+                    why = f"the count over the repaired text ({transformed[0]}) is mapped back through {nm}(original, n) before eat()"
+        ctx.ob("R01.11", f"deserialize_value:parse#{k}", ok, f.loc(t["ln"]), why if ok else why + ": the reader index can pass the end of the input (panic in remain(), spurious EOF)")
+
+
 def r01_8(ctx):
     """no leak on an error path of the bitwise hand-over (shared with C16: R16.2)"""
     from .c16 import r16_2
@@ -720,4 +889,10 @@ def r01_8(ctx):
             o["rule"] = "R01.8"
 
 
-RULES = [("R01.1", r01_1), ("R01.2", r01_2), ("R01.2b", r01_2b), ("R01.3", r01_3), ("R01.4", r01_4), ("R01.5", r01_5), ("R01.6", r01_6), ("R01.7", r01_7), ("R01.8", r01_8)]
+def r01_w(ctx):
+    """type-level witnesses (compile_fail doctests with error codes, each with a compiling twin)"""
+    from ..core import witness_obligations
+    witness_obligations(ctx, "R01.W", [('W1ReaderSealed', 'Reader cannot be implemented outside the crate'), ('W2PaddedNotNameable', 'the over-reading reader cannot be named outside the crate')])
+
+
+RULES = [("R01.1", r01_1), ("R01.2", r01_2), ("R01.2b", r01_2b), ("R01.3", r01_3), ("R01.4", r01_4), ("R01.5", r01_5), ("R01.6", r01_6), ("R01.7", r01_7), ("R01.8", r01_8), ("R01.9", r01_9), ("R01.10", r01_10), ("R01.11", r01_11), ("R01.W", r01_w)]
